@@ -343,13 +343,13 @@ func TestThorough(t *testing.T) {
 		fix.Pinned(t, prop, replay)
 		prelude(t)
 	}
-	fix.Check(t, "commit-points", 15, func(rt *rapid.T) {
+	fix.Check(t, "commit-points", 60, func(rt *rapid.T) {
 		run(rt, &Case{Data: drawData(rt, 3100), Mode: "commit-points", Writer: rapid.IntRange(0, fix.NWriters-1).Draw(rt, "writer")})
 	})
-	fix.Check(t, "kill-syscall", 60, func(rt *rapid.T) {
+	fix.Check(t, "kill-syscall", 200, func(rt *rapid.T) {
 		run(rt, &Case{Data: drawData(rt, 3100), Mode: "kill-syscall", Big: rapid.Bool().Draw(rt, "big"), When: rapid.IntRange(1, 60).Draw(rt, "when")})
 	})
-	fix.Check(t, "kill-delay", 40, func(rt *rapid.T) {
+	fix.Check(t, "kill-delay", 120, func(rt *rapid.T) {
 		run(rt, &Case{Data: drawData(rt, 3100), Mode: "kill-delay", Big: rapid.Bool().Draw(rt, "big"), Frac: rapid.IntRange(0, 1100).Draw(rt, "frac")})
 	})
 }
